@@ -22,6 +22,13 @@ Oracle   : per row, HedString(assembled row text).validate() (string level), the
            Part untimed-spellings: rows without a usable time (no onset column at all, or an onset that is n/a) carrying the temporal
            tags in every valid spelling - short, partial path, full path, lower / upper / mixed case, inside Def groups: one
            TEMPORAL_TAG_ERROR per temporal tag whatever its spelling, and the same issues as the canonical spelling.
+           Part column-attribution: files with k = 2..4 annotated columns (sidecar categorical / value columns + HED column in several
+           file orders, from DataFrame and TSV text; spreadsheets with 3-4 tag columns, with and without header row); a row has ONE
+           faulty cell (unknown tag, unbalanced parenthesis, forbidden character, empty tag; through a categorical entry, a value
+           template or directly) in column j, and the other k-1 annotated cells run through every assignment of {empty, n/a, valid};
+           next to an all-valid row, both row orders.  "True locations": the cell's errors - those that validating the cell's text
+           alone reports - are labelled with the column that holds the faulty text (clause C07.label.column, here strict: under that
+           column, not merely column-less), whatever stands in the cells before it, and with the row that holds it.
 """
 import collections
 import io
@@ -80,6 +87,34 @@ LAYOUTS = {
     "sheet0": dict(kind="sheet", via="tsv", columns=[0, 1, 2], bearing=[0, 2], sidecar=None, onset=False, header=False,
                    tag_columns=[0, 2]),
 }
+
+# layouts of part column-attribution: 2-4 annotated columns, file order different from the sorted column order
+SIDECAR4 = {"cat": SIDECAR["cat"], "kat": {"HED": {"p": "Blue", "q": "(Square, Large)", "bad": "(Red", "worse": "Green["}},
+            "val": SIDECAR["val"]}
+LAYOUTS.update({
+    "attr_t2a": dict(kind="tabular", via="df", columns=["onset", "val", "HED"], bearing=["val", "HED"], sidecar={"val": SIDECAR["val"]},
+                     onset=True, header=True),
+    "attr_t2b": dict(kind="tabular", via="df", columns=["kat", "onset", "cat"], bearing=["kat", "cat"],
+                     sidecar={"cat": SIDECAR4["cat"], "kat": SIDECAR4["kat"]}, onset=True, header=True),
+    "attr_t3": dict(kind="tabular", via="df", columns=["HED", "onset", "kat", "cat"], bearing=["HED", "kat", "cat"],
+                    sidecar={"cat": SIDECAR4["cat"], "kat": SIDECAR4["kat"]}, onset=True, header=True),
+    "attr_t4": dict(kind="tabular", via="df", columns=["kat", "HED", "onset", "val", "cat"], bearing=["kat", "HED", "val", "cat"],
+                    sidecar=SIDECAR4, onset=True, header=True),
+    "attr_t4tsv": dict(kind="tabular", via="tsv", columns=["onset", "duration", "cat", "kat", "val", "HED"],
+                       bearing=["cat", "kat", "val", "HED"], sidecar=SIDECAR4, onset=True, header=True),
+    "attr_s3": dict(kind="sheet", via="df", columns=["A", "note", "B", "C"], bearing=["A", "B", "C"], sidecar=None, onset=False,
+                    header=True, tag_columns=["A", "B", "C"]),
+    "attr_s4": dict(kind="sheet", via="df", columns=["D", "A", "note", "C", "B"], bearing=["D", "A", "C", "B"], sidecar=None,
+                    onset=False, header=True, tag_columns=["D", "A", "C", "B"]),
+    "attr_s4tsv": dict(kind="sheet", via="tsv", columns=["A", "B", "note", "C", "D"], bearing=["A", "B", "C", "D"], sidecar=None,
+                       onset=False, header=True, tag_columns=["A", "B", "C", "D"]),
+    "attr_s0": dict(kind="sheet", via="tsv", columns=[0, 1, 2, 3], bearing=[0, 2, 3], sidecar=None, onset=False, header=False,
+                    tag_columns=[0, 2, 3]),
+})
+ATTR_TAG_FAULTS = ["Blech", "(Red", "Green[", "Red,,Blue"]
+ATTR_FAULTS = {"cat": ["bad"], "kat": ["bad", "worse"], "val": ["v1, Blech", "v1, (Red"]}      # through the sidecar entry / template
+ATTR_VALID = {"cat": "go", "kat": "p", "val": "v1", "HED": "Red"}
+ATTR_TAGS = ["Red", "Blue", "(Green, Large)", "Square"]         # valid cells of tag columns, by position: no repeats in a row
 
 HED_POOL = ["Red", "(Blue, Square)", NA, "Blech", "(Red", "Red, Red", "(Def/MyDef, Onset)", "(Def/MyDef, Offset)",
             "(Def/MyDef, Inset)", "(Duration/2 s, (Red))", "(Delay/2 s, (Green)), Blue",
@@ -403,7 +438,7 @@ def _sev_error(i):
 
 
 def check_file(layout, rows, order, raise_label=L_RAISES, eq_label=L_EQUAL, temporal_label=L_TEMPORAL, canon_rows=None,
-               canon_label=L_CASE):
+               canon_label=L_CASE, strict_columns=False):
     """validate the file whose rows are rows[order[0]], rows[order[1]], ...; returns (checks, canonical issues)
     checks: list of (clause, ok, observed, expected); canonical: multiset of issues with row labels mapped to base rows.
     canon_rows: the same table with the reserved tags in canonical spelling (relational letter-case check);
@@ -479,7 +514,9 @@ def check_file(layout, rows, order, raise_label=L_RAISES, eq_label=L_EQUAL, temp
                 col_ok = False
                 detail.append({"column": str(c), "codes": dict(cnt), "cell": s["cols"].get(c)})
         for c in faulty:
-            if cell_err[c] - (per_col.get(c, collections.Counter()) + per_col.get(None, collections.Counter())):
+            # strict_columns (part column-attribution: faults that the cell's own text shows): under the cell's column, nowhere else
+            elsewhere = collections.Counter() if strict_columns else per_col.get(None, collections.Counter())
+            if cell_err[c] - (per_col.get(c, collections.Counter()) + elsewhere):
                 col_ok = False
                 detail.append({"column": str(c), "cell_errors": dict(cell_err[c]), "labelled": dict(per_col.get(c, {}))})
         add(L_COLLABEL, col_ok, {"file_row": k, "detail": detail}, "issues labelled with the column of the faulty cell")
@@ -489,6 +526,7 @@ def check_file(layout, rows, order, raise_label=L_RAISES, eq_label=L_EQUAL, temp
         for k, r in enumerate(file_rows):
             for c, x in zip(lay["columns"], r):
                 e = lay["sidecar"].get(c)
+                x = NA if (x == "" and lay["via"] == "tsv") else x          # an empty TSV field is read as n/a
                 if e and isinstance(e.get("HED"), dict) and x != NA and x not in e["HED"]:
                     want_km[(k, c)] += 1
         got_km = collections.Counter((i["ec_row"] - adj if i.get("ec_row") is not None else None, i.get("ec_column"))
@@ -542,14 +580,15 @@ def check_file(layout, rows, order, raise_label=L_RAISES, eq_label=L_EQUAL, temp
 
 
 def check_table(layout, rows, perms=None, raise_label=L_RAISES, eq_label=L_EQUAL, temporal_label=L_TEMPORAL,
-                canon_rows=None, canon_label=L_CASE):
+                canon_rows=None, canon_label=L_CASE, strict_columns=False):
     """all (or the given) row permutations of one base table (rows listed in onset order)"""
     n = len(rows)
     perms = perms if perms is not None else list(itertools.permutations(range(n)))
     out = []
     base = None
     for order in perms:
-        res, canon = check_file(layout, rows, list(order), raise_label, eq_label, temporal_label, canon_rows, canon_label)
+        res, canon = check_file(layout, rows, list(order), raise_label, eq_label, temporal_label, canon_rows, canon_label,
+                                strict_columns)
         if list(order) == list(range(n)):
             base = canon
         elif base is not None and canon is not None:
@@ -715,7 +754,8 @@ def _job(job):
             results = check_table_together(layout, rows, tb["perms"])
         else:
             results = check_table(layout, rows, tb.get("perms"), tb.get("raise_label", L_RAISES), tb.get("eq_label", L_EQUAL),
-                                  tb.get("temporal_label", L_TEMPORAL), tb.get("canon_rows"), tb.get("canon_label", L_CASE))
+                                  tb.get("temporal_label", L_TEMPORAL), tb.get("canon_rows"), tb.get("canon_label", L_CASE),
+                                  tb.get("strict_columns", False))
         for order, res in results:
             out["n"] += 1
             out["keys"].append((tb["key"], tuple(order)))
@@ -731,7 +771,8 @@ def _job(job):
                                                       "eq_label": tb.get("eq_label", L_EQUAL),
                                                       "temporal_label": tb.get("temporal_label", L_TEMPORAL),
                                                       "canon_rows": tb.get("canon_rows"),
-                                                      "canon_label": tb.get("canon_label", L_CASE)}, obs, exp))
+                                                      "canon_label": tb.get("canon_label", L_CASE),
+                                                      "strict_columns": tb.get("strict_columns", False)}, obs, exp))
                     else:
                         out["fails"].append((clause, None, None, None))
     return out
@@ -1038,6 +1079,41 @@ def delay_tables(w):
     return tables
 
 
+ATTR_LAYOUTS = ["attr_t2a", "attr_t2b", "attr_t3", "attr_t4", "attr_t4tsv", "attr_s3", "attr_s4", "attr_s4tsv", "attr_s0"]
+
+
+def attribution_tables(w):
+    """one faulty cell in annotated column j, every assignment of {empty, n/a, valid} to the other annotated cells of the row, next to
+    an all-valid row; k = 2..4 annotated columns.  quick: the fault kinds rotate over the assignments, thorough: all of them"""
+    tables = []
+    for layout in ATTR_LAYOUTS:
+        lay = LAYOUTS[layout]
+        bearing = lay["bearing"]
+        k = len(bearing)
+        sheet = lay["kind"] == "sheet"
+        valid = {c: (ATTR_TAGS[i] if sheet else ATTR_VALID[c]) for i, c in enumerate(bearing)}
+        faults = {c: (ATTR_TAG_FAULTS if sheet or c == "HED" else ATTR_FAULTS[c]) for c in bearing}
+        no = 0
+        for j, fc in enumerate(bearing):
+            others = [c for c in bearing if c != fc]
+            for states in itertools.product(("", NA, "valid"), repeat=k - 1):
+                no += 1
+                kinds = faults[fc] if not w.quick else [faults[fc][no % len(faults[fc])]]
+                for fault in kinds:
+                    row = {fc: fault}
+                    for c, st in zip(others, states):
+                        row[c] = valid[c] if st == "valid" else st
+                    good = dict(valid)
+                    rows = build_rows(layout, [good, row], ["1.5", "2.25"])
+                    tables.append({"layout": layout, "rows": rows, "key": ("attr", layout, fc, states, fault),
+                                   "perms": [[0, 1], [1, 0]], "strict_columns": True})
+                    if no % 4 == 0:      # the faulty row alone in the file
+                        rows1 = build_rows(layout, [row], ["1.5"])
+                        tables.append({"layout": layout, "rows": rows1, "key": ("attr1", layout, fc, states, fault),
+                                       "perms": [[0]], "strict_columns": True})
+    return tables
+
+
 def run(w: Workload):
     w.rule = ("6 file layouts (events table from DataFrame / from TSV text, 1-3 HED-bearing columns with categorical and value "
               "sidecar columns, spreadsheet with and without header row); per layout a pool of 12-17 row types (valid, invalid "
@@ -1119,6 +1195,16 @@ def run(w: Workload):
            "TSV text%s; all row orders (4-row files: 4 orders); the rows of one time point are judged as their joined annotation"
            % (len(EQUAL_SPELLINGS), len(EQUAL_CELLS), " (quick: half of the combinations)" if w.quick else ""),
            exhaustive=not w.quick, base_tables=len(eqt))
+    at = attribution_tables(w)
+    n = _absorb(w, _par(_chunks(at, 40)), counters)
+    w.part("column-attribution", cases=n, bound="%d layouts with k = 2..4 annotated columns (events table: value + HED, two categorical, "
+           "HED + two categorical, two categorical + value + HED from DataFrame and from TSV text, file order different from sorted "
+           "order; spreadsheet: 3 and 4 tag columns from DataFrame / TSV text, 3 numbered tag columns without header) x faulty "
+           "column j x every assignment of (empty, n/a, valid) to the other k-1 annotated cells x %s fault kinds (unknown tag, "
+           "unbalanced parenthesis, forbidden character, empty tag; for sidecar columns through the entry / template): 2-row file "
+           "(all-valid row + faulty row) in both row orders, every 4th also as a 1-row file; the cell's own errors are labelled with "
+           "its column and row" % (len(ATTR_LAYOUTS), "one rotating of the" if w.quick else "all"),
+           exhaustive=not w.quick, base_tables=len(at))
     w.bounded[-1]["checks_per_clause"] = counters
     w.exhaustive = False
     w.not_covered += ["Delay groups landing on another row's onset; rows sharing an onset other than in part equal-onsets (plain "
@@ -1150,7 +1236,7 @@ def replay(w: Workload, case: dict):
         return
     for order, res in check_table(inp["layout"], inp["rows"], perms, inp.get("raise_label", L_RAISES),
                                   inp.get("eq_label", L_EQUAL), inp.get("temporal_label", L_TEMPORAL),
-                                  inp.get("canon_rows"), inp.get("canon_label", L_CASE)):
+                                  inp.get("canon_rows"), inp.get("canon_label", L_CASE), inp.get("strict_columns", False)):
         if order != inp["order"]:
             continue
         for cl, ok, obs, exp in res:
